@@ -117,12 +117,12 @@ static void checkModel(verif::Run& run, const std::string& section, const std::v
 
 int main(int argc, char** argv) {
     verif::Run run("C01", argc, argv);
-    run.setDeadline(150, 2400);
+    run.setDeadline(400, 2400);    // caps only (shared machine; the alphabet grew by 1.3x)
     const bool th = run.thorough();
-    run.rule = "E3: models = level G (the variant and a companion both on Ground, either creation order, + a child: reaches the lone-particle fast path behind mobilizers with nq != nu), level A (every KINDxDIRxFRAMES variant as base/middle/tip/fork-branch of a 3-body tree with companions {Pin,Ball,Free}^2) and level B (all ordered parent->child pairs KIND^2xDIR^2xFRAMES{II,GG}^2), thorough adds level C (all triples over 8 code families, chain+fork, DIR^3); x COORD{quaternion,Euler} x MASS(3) x STATE(4: zero, generic, large-angle, zero-velocity); value set = seed%3 (thorough: all 3). distinct = distinct (model,coord,mass,state,valueset); non-trivial = nu>=1";
+    run.rule = "E3: KIND = 19 built-in mobilizers, 5 Custom/FunctionBased mirrors with a constant hinge matrix, FunctionBased with nonlinear coordinate functions and 1..6 mobilities (FBN1..6), Custom helix slider with H(q) from X_FM and HDot from V_FM -- 58 KINDxDIR variants (engine/models.h); models = section S (every variant alone on Ground x all 8 frame pairs incl. the four one-part-only pairs), level G (the variant and a companion both on Ground, either creation order, + a child: reaches the lone-particle fast path behind mobilizers with nq != nu), level A (every KINDxDIRxFRAMES variant as base/middle/tip/fork-branch of a 3-body tree with companions {Pin,Ball,Free}^2) and level B (all ordered parent->child pairs of constant-H variants x FRAMES{II,GG}^2; every q-dependent-H variant in both orders with the 8 code families x DIR and among themselves), thorough adds level C (all triples over 8 code families, chain+fork, DIR^3); x COORD{quaternion,Euler} x MASS(3) x STATE(4: zero, generic, large-angle, zero-velocity); value set = seed%3 (thorough: all 3). distinct = distinct (model,coord,mass,state,valueset); non-trivial = nu>=1";
     run.assumptions = {"continuous values only from the fixed tables in engine/models.h", "trees of at most 3 mobilized bodies", "position/velocity kinematics (used to build J_ref) are themselves checked by C03/C05", "relative tolerance 1e-11 scaled by cond(M) for inverse routes"};
     std::vector<int> valueSets = th ? std::vector<int>{0, 1, 2} : std::vector<int>{(int)(((run.seed % 3) + 3) % 3)};
-    mb::LevelA A; mb::LevelB B; mb::LevelC C; mb::LevelG G;
+    mb::LevelA A; mb::LevelB B; mb::LevelC C; mb::LevelG G; mb::LevelS S;
     auto section = [&](const std::string& name, int64_t nModels, std::function<std::vector<mb::BodySpec>(int64_t, int)> specsOf) {
         verif::Odometer od;
         od.dim("state", 4); od.dim("mass", 3); od.dim("coord", 2); od.dim("valueset", (int64_t)valueSets.size()); od.dim("model", nModels);
@@ -137,6 +137,7 @@ int main(int argc, char** argv) {
             if (idx % 20011 == 0) run.sample(desc);
         });
     };
+    section("S", S.size(), [&](int64_t i, int m) { return S.specs(i, m); });     // every variant alone on Ground x all 8 frame pairs
     section("A", A.size(), [&](int64_t i, int m) { return A.specs(i, m); });
     section("G", G.size(), [&](int64_t i, int m) { return G.specs(i, m); });
     section("B", B.size(), [&](int64_t i, int m) { return B.specs(i, m); });
